@@ -97,6 +97,11 @@ Fixpoint exp (fuel : nat) (s : tspec) (t : nat) : out * list tr * nat :=
       | (Exc e, [one], Some (_, ev)) => (Exc e, TR n t None [] :: one, e)
       | (Exc e, failed, Some _) => (Exc e, [TR n t (Some e) failed], e) end
   (* a guard: the failing sub-spec below it — or, when the sub-spec succeeded and the guard itself refuses, the guard alone *)
+  (* Coalesce with a default factory never fails: nothing of it shows in a trace *)
+  | AltD n bs =>
+      match alt_exp (exp fuel) t bs [] false with
+      | (Some v, _, _) => (Ret v, [], 0)
+      | (None, _, _) => (Ret (3000 + n), [], 0) end
   | Guard n ok kid =>
       match exp fuel kid t with
       | (Ret _, _, _) => if ok then (Ret t, [], 0) else (Exc (6000 + n), [TR n t (Some (6000 + n)) []], 6000 + n)
@@ -142,13 +147,14 @@ Fixpoint relabel (fuel : nat) (s : tspec) (n : nat) : tspec * nat :=
                            let '(r', n3) := pairs r n2 in ((k', v') :: r', n3) end) cs (S n) in
       (Switch n cs', m)
   | Guard _ ok k => let '(k', m) := relabel fuel k (S n) in (Guard n ok k', m)
+  | AltD _ l => let '(l', m) := many l (S n) in (AltD n l', m)
   end end.
 Definition numbered (s : tspec) : tspec := fst (relabel 10 s 1).
 
 Definition lists12 {A} (l : list A) : list (list A) := map (fun x => [x]) l ++ flat_map (fun x => map (fun y => [x; y]) l) l.
 Definition level (prev : list tspec) : list tspec :=
   prev ++ map (Guard 0 false) prev ++ map (Guard 0 true) prev
-       ++ flat_map (fun ks => [Nest 0 ks; Chain 0 ks; Alt 0 ks; OrS 0 ks]) (lists12 prev)
+       ++ flat_map (fun ks => [Nest 0 ks; Chain 0 ks; Alt 0 ks; OrS 0 ks; AltD 0 ks]) (lists12 prev)
        ++ map (fun kv => Switch 0 [kv]) (list_prod prev prev).
 Definition leaves : list tspec := [Leaf 0 true; Leaf 0 false; SkipLeaf 0].
 Definition shapes1 : list tspec :=
